@@ -160,8 +160,58 @@ def f_wrappers_truthy(sess, tier):
          "%d TTLV classes inspected; %s" % (len(seen), "; ".join(sorted(bad)) or "none defines __bool__ or __len__"))
 
 
+def mutable_defaults_present():
+    """cheap pre-check used by properties whose other units run repository code natively: with a
+    shared mutable default those runs contaminate each other (and may not terminate)"""
+    class _S(object):
+        def __init__(self):
+            self.bad = False
+
+        def record(self, r):
+            self.bad = self.bad or r.status != 'proved'
+    s = _S()
+    f_no_mutable_defaults(s, 'quick')
+    return s.bad
+
+
+def f_no_mutable_defaults(sess, tier):
+    """The executor evaluates a default argument at every call; Python evaluates it once, when the
+    function is defined.  The two agree exactly when no default is a mutable object - otherwise one
+    list or dictionary is shared by every call that omits the argument (a decoder appending to it
+    contaminates every later message).  Checked over every function of the package under verification."""
+    import ast
+    import os
+    from . import extract
+    root = os.path.join(extract.repo(), 'kmip')
+    bad, n = [], 0
+    for d, _, files in os.walk(root):
+        if os.sep + 'tests' in d:
+            continue
+        for f in files:
+            if not f.endswith('.py'):
+                continue
+            p = os.path.join(d, f)
+            try:
+                tree = ast.parse(open(p).read())
+            except Exception as e:
+                bad.append("%s does not parse: %s" % (p, e))
+                continue
+            for node in ast.walk(tree):
+                if isinstance(node, (ast.FunctionDef, ast.AsyncFunctionDef, ast.Lambda)):
+                    n += 1
+                    for dflt in list(node.args.defaults) + [x for x in node.args.kw_defaults if x is not None]:
+                        mutable = isinstance(dflt, (ast.List, ast.Dict, ast.Set, ast.ListComp, ast.DictComp, ast.SetComp)) or \
+                            (isinstance(dflt, ast.Call) and getattr(dflt.func, 'id', '') in ('list', 'dict', 'set', 'bytearray'))
+                        if mutable:
+                            bad.append("%s:%d %s has the mutable default %s" % (
+                                os.path.relpath(p, extract.repo()), node.lineno, getattr(node, 'name', '<lambda>'),
+                                ast.unparse(dflt)))
+    _rec(sess, "fact:C01/no-function-has-a-mutable-default-argument", not bad,
+         "%d functions inspected; %s" % (n, "; ".join(bad) or "no mutable default"))
+
+
 def units(names, ctx):
-    table = {"wrappers_truthy": f_wrappers_truthy, "tag_blocks": f_tag_blocks, "crypto_wrapped": f_crypto_wrapped, "lock": f_lock, "state_frame": f_state_frame, "autoincrement": f_autoincrement,
+    table = {"no_mutable_defaults": f_no_mutable_defaults, "wrappers_truthy": f_wrappers_truthy, "tag_blocks": f_tag_blocks, "crypto_wrapped": f_crypto_wrapped, "lock": f_lock, "state_frame": f_state_frame, "autoincrement": f_autoincrement,
              "versions": f_versions}
     out = []
     for nm in names:
